@@ -19,7 +19,7 @@ EVENT_KEYS = ("p", "a", "o", "old", "new", "ok", "spur", "obs", "done")
 class ConcSpec:
     def __init__(self, name, scenario, grid, inv_props, primary, mc_cfgs=(), paths_cfg=None, trace_cfg=None,
                  dfs_max=20000, rand_execs=0, preempt=None, scen_keys=None, trace_workers=1, gen_module=None,
-                 rand_grid=None, paths_max=4000, trace_timeout=900):
+                 rand_grid=None, paths_max=4000, trace_timeout=900, tail_execs=40):
         self.name = name
         self.scenario = scenario
         self.grid = grid
@@ -36,6 +36,7 @@ class ConcSpec:
         self.rand_grid = rand_grid
         self.paths_max = paths_max
         self.trace_timeout = trace_timeout
+        self.tail_execs = tail_execs
 
 
 def params_key(p):
@@ -113,6 +114,21 @@ def collect_traces(rep, spec, exe, tier, seed):
                                "sched": crash.get("sched")})
                 ex = [e for e in ex if e and e[-1].get("e") == "end"]
             execs.extend(ex)
+    # tail-split runs: preemption right after a visible operation, judged by the abstract monitors only
+    if spec.tail_execs > 0:
+        for i, params in enumerate(list(spec.grid) + list(grid if spec.rand_execs > 0 else [])):
+            lines, summary, crashed, err = core.run_vrt(exe, spec.scenario, params, mode="rand", max_execs=spec.tail_execs,
+                                                        seed=seed * 7919 + i, tailsplit=2)
+            ex = core.split_execs(lines)
+            if crashed:
+                crash = lines[-1] if lines and lines[-1].get("e") == "crash" else {}
+                rep.violation("crash/%s/%s" % (spec.scenario, params_key(params)),
+                              "the harness process died while executing a schedule of scenario %s %s that preempts a thread "
+                              "between a visible operation and the plain code after it" % (spec.scenario, params_key(params)),
+                              {"scenario": spec.scenario, "params": params, "choices": crash.get("choices"),
+                               "sched": crash.get("sched"), "tailsplit": 2})
+                ex = [e for e in ex if e and e[-1].get("e") == "end"]
+            execs.extend(ex)
     return execs
 
 
@@ -167,8 +183,10 @@ def _validate_chunk(spec, wd, execs, want, tag):
                     for ln in sorted(dl):
                         idx = max(i for i, s in enumerate(starts) if s <= ln)
                         first.setdefault(idx, ln)
-                    for idx, ln in sorted(first.items())[:5]:
+                    for idx, ln in sorted(first.items()):
                         ex = remaining[idx]
+                        if ex[0].get("tailsplit") or len(col.drift) >= 5:
+                            continue  # tail-split executions are expected to leave the slice structure
                         col.drift.append("%s %s: line %d of the execution has no matching action in %s: %s" % (
                             spec.scenario, params_key(ex[0].get("params", {})), ln - starts[idx] + 1, spec.name,
                             json.dumps(ex[ln - starts[idx]])[:300]))
